@@ -66,6 +66,12 @@ def main():
         import selftest
 
         return selftest.determinism(runs=args.runs or 200, log=log)
+    if args.what == "selftest-records":
+        import json
+        import selftest
+
+        print(json.dumps(selftest.records(args.runs or 40)), flush=True)
+        return 0
     if args.what == "C15":
         import c15
 
